@@ -6,6 +6,7 @@ pub mod c02;
 pub mod c03;
 pub mod c04;
 pub mod c06;
+pub mod c08;
 pub mod c12;
 pub mod c13;
 pub mod c14;
@@ -17,6 +18,7 @@ pub fn run(id: &str, thorough: bool) -> Option<Outcome> {
         "C03" => Some(c03::run(thorough)),
         "C04" => Some(c04::run(thorough)),
         "C06" => Some(c06::run(thorough)),
+        "C08" => Some(c08::run(thorough)),
         "C12" => Some(c12::run(thorough)),
         "C13" => Some(c13::run(thorough)),
         "C14" => Some(c14::run(thorough)),
@@ -31,6 +33,7 @@ pub fn replay(id: &str, ex: &Value) -> Option<Report> {
         "C03" => Some(c03::replay(ex)),
         "C04" => Some(c04::replay(ex)),
         "C06" => Some(c06::replay(ex)),
+        "C08" => Some(c08::replay(ex)),
         "C12" => Some(c12::replay(ex)),
         "C13" => Some(c13::replay(ex)),
         "C14" => Some(c14::replay(ex)),
